@@ -16,6 +16,11 @@ CHECKS = {
          "The cached tables embossc loads and tables regenerated from module_ir.PRODUCTIONS + error_examples are explored as a product automaton from (0,0) for both start symbols; every reachable pair agrees on every terminal (action kind, production, error code incl. default errors, expected set) and goto, which by induction on parser steps gives identical accept/reject, tree, error position and message on every token sequence. doc/grammar.md productions and token table are compared with the source. Corpus files and their token mutants are replayed through both parsers.",
          "Trusted: lr1.Parser.parse is driven only by action/goto/default_errors; the regenerated parser is the reference (its own correctness is C08).",
          "DESIGN.md section 3, C09"),
+ "C08": ("model_checking",
+         "explicit-state: every grammar of bounded families x all strings up to a length bound, and every state x every terminal of the generated Emboss automaton, executed on the real lr1.Grammar/Parser against language fixpoints and an Earley recogniser",
+         "All 12 383 (quick) / 136 k (thorough) grammars over {S,A}x{a,b} with <=3/<=4 productions, all 41 727 / 637 k grammars over {S,A,B}x{a}, a zoo of 32 textbook grammars, each with all strings up to length 5-8: conflict report agrees with a plain canonical LR(1) construction, conflict-free => accept iff member, tree is a derivation, error index/expected set = viable-prefix oracle, no string with two derivations. Emboss grammar (module and expression start symbols): all 24 035 states via shortest access strings x all terminals + end of input against Earley; all 235 506 non-error action entries exercised.",
+         "Trusted: vk/cfg.py (language/derivation/viable-prefix fixpoints, plain LR(1)), vk/earley.py; cross-checked against each other on every run. Viable-prefix clause compared only on reduced grammars. Strings are bounded in length.",
+         "DESIGN.md section 3, C08"),
 }
 NOT_YET = "check not built yet in this round (planned in DESIGN.md section 3); no claim made"
 
